@@ -81,6 +81,10 @@ func (x *Exec) assignedVars(nodes ...ast.Node) []*types.Var {
 
 // havocLoop forgets everything the loop may change.
 func (x *Exec) havocLoop(st *State, nodes ...ast.Node) {
+	// the heaps (and the allocator) first: the unknown values the assigned
+	// variables get below may refer to memory allocated in earlier iterations
+	eff := x.p.effectsOfNodes(x.cur().fi, x.info(), nodes...)
+	x.applyEffects(st, eff, nil, nil)
 	for _, v := range x.assignedVars(nodes...) {
 		if _, bound := st.vars[v]; !bound {
 			continue
@@ -91,8 +95,6 @@ func (x *Exec) havocLoop(st *State, nodes ...ast.Node) {
 		st.vars[v] = x.unknown(st, v.Name(), v.Type())
 		delete(st.closures, v)
 	}
-	eff := x.p.effectsOfNodes(x.cur().fi, x.info(), nodes...)
-	x.applyEffects(st, eff, nil, nil)
 	// ghost counters and channel ghosts may change in any loop that makes calls:
 	// the counters already touched on this path, and those the statements of
 	// the loop can change (counters named by the contracts of the functions
